@@ -417,8 +417,9 @@ public:
     Index compute(SortRule selection = SortRule::LargestMagn, Index maxit = 1000,
                   Scalar tol = 1e-10, SortRule sorting = SortRule::LargestMagn)
     {
-        // The m-step Arnoldi factorization
-        m_fac.factorize_from(1, m_ncv, m_nmatop);
+        // The m-step Arnoldi factorization, continued from the current dimension:
+        // 1 after init(), m_ncv if compute() has already been called on this factorization
+        m_fac.factorize_from((std::max)(Index(1), m_fac.subspace_dim()), m_ncv, m_nmatop);
         retrieve_ritzpair(selection);
         // Restarting
         Index i, nconv = 0, nev_adj;
